@@ -22,4 +22,4 @@ def plans(tier):
 
 
 def run(tier):
-    return pc.run_check("C02", tier, ("C02",), plans(tier))
+    return pc.run_check("C02", tier, ("C02",), plans(tier), guards={"passive"})
